@@ -17,8 +17,8 @@ _gaps = st.lists(st.integers(0, 3), min_size=1, max_size=5)
 
 
 def input_strategy(flat=False, w1=2, w2=2, w3=3, max_stmts=25):
-    s1 = st.fixed_dictionaries({"stratum": st.just(1), "prog": gen_prog.programs(flat=flat, max_stmts=max_stmts), "gaps": _gaps})
-    s2 = st.fixed_dictionaries({"stratum": st.just(2), "prog": gen_prog.programs(max_stmts=max_stmts), "gaps": _gaps, "relayout": st.lists(st.integers(0, 1000), min_size=3, max_size=9)})
+    s1 = st.fixed_dictionaries({"stratum": st.just(1), "prog": gen_prog.programs(flat=flat, max_stmts=max_stmts), "gaps": _gaps, "name_table": st.booleans()})
+    s2 = st.fixed_dictionaries({"stratum": st.just(2), "prog": gen_prog.programs(max_stmts=max_stmts), "gaps": _gaps, "relayout": st.lists(st.integers(0, 1000), min_size=3, max_size=9), "name_table": st.booleans()})
     s3 = gen_ssb.free_graphs()
     return st.one_of([s1] * w1 + [s2] * w2 + [s3] * w3)
 
@@ -44,6 +44,7 @@ def materialise(case, stt):
             stt.count("gap_routine")
             return None, None
         c["stratum"] = s
+        c["name_table"] = bool(case.get("name_table"))
         if s == 2:
             c, applied = gen_ssb.relayout(c, case["relayout"])
             for a in applied:
